@@ -23,6 +23,9 @@ func c10Shape(d *rules.DNSRewrite) string {
 		if d.Value != nil || d.RCode != 0 || d.RRType != 0 {
 			return "new-cname-with-other-fields"
 		}
+		if !c10ValidName(d.NewCNAME, false) {
+			return "new-cname-not-a-host-name"
+		}
 		return ""
 	}
 	if d.RRType != 0 && d.RCode != dns.RcodeSuccess {
@@ -40,17 +43,23 @@ func c10Shape(d *rules.DNSRewrite) string {
 	case dns.TypeMX:
 		if v, ok := d.Value.(*rules.DNSMX); !ok || v == nil {
 			return "MX-value-not-*DNSMX"
+		} else if !c10ValidName(v.Exchange, false) {
+			return "MX-exchange-not-a-host-name"
 		}
 	case dns.TypeSRV:
 		if v, ok := d.Value.(*rules.DNSSRV); !ok || v == nil {
 			return "SRV-value-not-*DNSSRV"
+		} else if v.Target != "." && !c10ValidName(v.Target, false) {
+			return "SRV-target-not-a-host-name"
 		}
 	case dns.TypeHTTPS, dns.TypeSVCB:
 		if v, ok := d.Value.(*rules.DNSSVCB); !ok || v == nil {
 			return "SVCB-value-not-*DNSSVCB"
+		} else if v.Target != "." && !c10ValidName(v.Target, false) {
+			return "SVCB-target-not-a-host-name"
 		}
 	case dns.TypePTR:
-		if v, ok := d.Value.(string); !ok || !strings.HasSuffix(v, ".") {
+		if v, ok := d.Value.(string); !ok || !strings.HasSuffix(v, ".") || !c10ValidName(v, true) {
 			return "PTR-value-not-fqdn-string"
 		}
 	case dns.TypeTXT:
@@ -63,6 +72,32 @@ func c10Shape(d *rules.DNSRewrite) string {
 		}
 	}
 	return ""
+}
+
+// c10ValidName: dot-separated non-empty labels of letters, digits and inner
+// hyphens; fqdn allows (and requires) exactly one trailing dot.
+func c10ValidName(s string, fqdn bool) bool {
+	if fqdn {
+		if !strings.HasSuffix(s, ".") {
+			return false
+		}
+		s = s[:len(s)-1]
+	}
+	if s == "" {
+		return false
+	}
+	for _, l := range strings.Split(s, ".") {
+		if l == "" {
+			return false
+		}
+		for i, ch := range l {
+			alnum := ch >= 'a' && ch <= 'z' || ch >= 'A' && ch <= 'Z' || ch >= '0' && ch <= '9'
+			if !(alnum || (ch == '-' && i > 0)) {
+				return false
+			}
+		}
+	}
+	return true
 }
 
 // c10Consume is what a consumer following the RRValue documentation does.
@@ -128,7 +163,7 @@ func checkC10(c c10Case, rec *Rec) *Violation {
 
 var c10RCodes = []string{"NOERROR", "noerror", "NXDOMAIN", "SERVFAIL", "REFUSED", "YXDOMAIN", "BADVERS", "FOO", "", "NoError", "FORMERR", "NOTIMP", "BADSIG", "BADCOOKIE"}
 var c10Types = []string{"A", "AAAA", "CNAME", "MX", "PTR", "TXT", "HTTPS", "SVCB", "SRV", "NS", "SOA", "a", "aaaa", "NONE", "RESERVED", "ANY", "", "TYPE65", "X", "mx", "srv", "https", "Ptr", "OPT", "CAA", "none"}
-var c10Vals = []string{"", "1.2.3.4", "::1", "::ffff:1.2.3.4", "[::1]", "1.2.3", "256.1.1.1", "host.example", "host.example.", ".", "..", "-a.b", "a_b.c",
+var c10Vals = []string{"", "1.2.3.4", "::1", "::ffff:1.2.3.4", "[::1]", "1.2.3", "256.1.1.1", "host.example", "host.example.", "host.example..", "h..example.", ".", "..", "-a.b", "a_b.c",
 	"10 mail.x", "10  mail.x", "65536 mail.x", "65535 mail.x", "-1 mail.x", "10 .", "10", "0 m.x", "1e20 m.x", "1 2 3 t.x", "1 2 3 .", "1 2 65536 t.x", "65535 65535 65535 t.x",
 	"1 2 3", "1 2 3 t.x extra", "1 .", "1 . alpn=h3", "1 . alpn", "1 . a=b=c", "1 t.x ipv4hint=1.2.3.4 port=8443", "99999 .", "hello world", "a;b",
 	strings.Repeat("a", 64), strings.Repeat("a", 63), "xn--e1afmkfd.xn--p1ai", "0.0.0.0", "::", "1.2.3.4.", " 1.2.3.4", "fe80::1%eth0", "a..b", "a.b..", "1", "00 m.x", "+1 m.x"}
